@@ -12,6 +12,7 @@ import (
 	"sync/atomic"
 	"testing"
 	"unsafe"
+	"verif/harness/cold"
 	"verif/harness/guard"
 	"verif/harness/hook"
 
@@ -596,10 +597,16 @@ func props() []rp.Prop {
 	return []rp.Prop{
 		rp.P[aCase]{Name: "addr", Checks: ev.Pick(60000, 6000000) / ev.Shards(), Gen: genCase, Check: check},
 		rp.P[addrPair]{Name: "colliding-pairs", Sweep: sweepAddrPairs, Check: checkAddrPair},
+		cold.Prop{Name: "first-role-order", Scenario: "role-order", N: ev.Pick(48, 480) / ev.Shards()},
 	}
 }
 
-func TestC15(t *testing.T)    { rp.RunAll(t, props()...) }
+func TestC15(t *testing.T) {
+	if cold.Scenario() != "" {
+		t.Skip("cold-start child")
+	}
+	rp.RunAll(t, props()...)
+}
 func TestReplay(t *testing.T) { rp.ReplayAll(t, props()...) }
 
 func FuzzAddr(f *testing.F) {
